@@ -96,7 +96,19 @@ impl log::Log for SinkLogger {
         // library started while it built the record gets a chance to run before the call returns
         let d = LOG_DELAY_US.load(std::sync::atomic::Ordering::Relaxed);
         if d > 0 {
-            std::thread::sleep(std::time::Duration::from_micros(d));
+            // (optionally only for records whose text contains a given word)
+            let only = LOG_DELAY_ONLY.lock().unwrap().clone();
+            let hit = match only {
+                None => true,
+                Some(word) => {
+                    let mut text = String::new();
+                    let _ = write!(text, "{}", record.args());
+                    text.contains(&word)
+                }
+            };
+            if hit {
+                std::thread::sleep(std::time::Duration::from_micros(d));
+            }
         }
     }
     fn flush(&self) {}
@@ -111,9 +123,18 @@ pub fn install_logger() {
 
 static LOG_DELAY_US: std::sync::atomic::AtomicU64 = std::sync::atomic::AtomicU64::new(0);
 
+static LOG_DELAY_ONLY: std::sync::Mutex<Option<String>> = std::sync::Mutex::new(None);
+
 /// makes every record cost this long (0 = nothing); used by C13's scheduling-sensitive cases
 pub fn set_log_delay_us(us: u64) {
     LOG_DELAY_US.store(us, std::sync::atomic::Ordering::Relaxed);
+    *LOG_DELAY_ONLY.lock().unwrap() = None;
+}
+
+/// like `set_log_delay_us`, for the records whose text contains `word` only
+pub fn set_log_delay_for(word: &str, us: u64) {
+    LOG_DELAY_US.store(us, std::sync::atomic::Ordering::Relaxed);
+    *LOG_DELAY_ONLY.lock().unwrap() = Some(word.to_owned());
 }
 
 pub fn set_logging(on: bool) {
